@@ -1026,6 +1026,13 @@ def merge_checks(ctx, b, out, prefix):
     else:
         good('M3-inc', 'one increment per iteration')
     Iphi = incs[0][1][2][0] if incs else None
+    # ---- M0: every cursor starts at the first element of its vector
+    if incs:
+        nz = [x for x in idx_bases if not (x is not None and x[0] == 'call' and method_of_term(x) == 'from_elem' and x[2] and x[2][0] == ('const', 0))]
+        if nz:
+            bad('M0', 'the per-vector cursors do not start at 0 (%s): the first element(s) of every vector are never read - left out of the output and leaked' % t_str(nz[0])[:80])
+        else:
+            good('M0', 'cursors start at 0')
     ok_read = False
     rarg = rc['nargs'][0]
     if rarg[0] == 'call' and method_of_term(rarg) == 'add' and len(rarg[2]) == 2:
@@ -1613,7 +1620,12 @@ def c01_reserve(ctx):
                         # a constant is the amount for the path on which the input length is unknown: either this very path, or
                         # the other arm of the match on the length that produced the alternatives
                         if const_int(amount) and (known_unknown or (len(alts) > 1 and any_len)):
-                            why = why or 'constant bound where the input length is unknown'
+                            if amount[1] < (1 << 32):
+                                # the fixed reservation is the number of elements a source of unknown length may yield before the positional
+                                # writes run out of reserved capacity; the library promises 2^32
+                                okk, why = False, 'the fixed reservation for sources of unknown length is %d elements (less than the 2^32 the library provides for)' % amount[1]
+                            else:
+                                why = why or 'constant bound where the input length is unknown'
                         else:
                             okk, why = False, 'the reserved amount %s does not depend on the input length' % t_str(amount)[:100]
                     elif total_api and not tgt_len:
@@ -2537,6 +2549,335 @@ def _accept_rule(ctx, RID, roots, KINDS, floor):
     return out
 
 
+# ======================================================================================= C05-FEED
+def _is_value_test(d):
+    return d is not None and d[0] == 'call' and sg(d[1]).endswith('Fallible::has_value')
+
+
+def _feed_seeds(root, name, ft, hv, used=None):
+    def atoms(d):
+        if _user_pred_truth(root, d):
+            if used is not None:
+                used.add('filter')
+            return ft
+        if _is_value_test(d):
+            if used is not None:
+                used.add('value')
+            return hv
+        return None
+    return {'atoms': atoms, 'key': ('feed', name, ft, hv, id(used))}
+
+
+STAGE_METHODS = {'has_value', 'value', 'into_option', 'clone', 'next', 'into_iter', 'iter', 'enumerate', 'map', 'filter', 'flat_map', 'filter_map', 'len', 'is_empty',
+                 'skip_to_end', 'has_more', 'try_get_len', 'as_ref', 'deref', 'borrow', 'is_some', 'is_none', 'cmp', 'partial_cmp', 'eq', 'ne', 'lt', 'le', 'gt', 'ge'}
+
+
+@rule('C05-FEED', 'what a kernel loop takes from the source reaches the result: an iteration that passes the user tests updates an accumulator or appends to the target with a value derived from the pulled element - and an iteration that does not, does not')
+def c05_feed(ctx):
+    """The accumulator rules (C03-THREAD, C04-THREAD) and the append rules (C01-APPEND, C06-MUT) judge the updates that exist.  This rule
+    decides that they exist where they must.  For every loop of a must-visit task / sequential kernel / seq_extend that is driven
+    by an Option-valued pull (`while let Some(x) = pull` / `for x in chain`):  a *feed* is a statement or call that gives a
+    loop-carried local a new value mentioning the pulled value, or a call on a loop-carried / reference-typed target with an
+    argument mentioning it.  The body is re-executed with the user predicate and has_value fixed:  all true - every path from the
+    Some edge back to the loop head (or out of the loop) passes a feed;  any false - no feed is reachable before the loop head.
+    An outer loop whose body only drives an inner pulling loop needs one feed that mentions its pull."""
+    out = RuleOut('C05-FEED')
+    F = ctx.facts
+    S = ctx.slots
+    I = items(ctx)
+    roots = list(dict.fromkeys(must_visit_tasks(ctx) + list(S.seq_kernels)))
+    for b in F.bodies.values():
+        if b.d.get('impl_trait') == COLLECT_INTO_CORE and b.d.get('method') == 'seq_extend':
+            roots.append(b.name)
+    n = 0
+    for bn in roots:
+        b = F.bodies[bn]
+        cfg = ctx.cfg(b)
+        loops = cfg.loops()
+        if not loops:
+            continue
+        r = ctx.run(bn)
+        ref_params = set()
+        for l in b.arg_locals():
+            ty = b.locals[l]['ty']
+            if ty.startswith('&') and local_type_param(b, l) not in b.fn_bounds() and 'Fn' not in ty:
+                ref_params.add(('param', b.local_name(l) or '_%d' % l))
+        nkey = {}
+        returned_phis = {(x[1], x[2]) for alt in alternatives(r.ret) for x in subterms(alt) if x[0] == 'phi'} if r.ret is not None else set()
+        # a phi returned through another phi (the value carried out of an inner loop)
+        for _ in range(4):
+            for k in list(returned_phis):
+                for t_ in list(r.recur.get(k, ())) + [r.init.get(k)]:
+                    if t_ is not None:
+                        returned_phis |= {(x[1], x[2]) for x in subterms(t_) if x[0] == 'phi'}
+        # no chain anywhere in the body goes through an adaptor that discards or reorders elements irrespective of the user filter
+        seen_bad = set()
+        for x, c in r.call_sites():
+            for a in c['args']:
+                if a is None or a[0] != 'call' or not (is_iter_method(a) or is_into_iter(a)):
+                    continue
+                names, root_ = I.spine(a)
+                for y in names:
+                    if (y in ITER_CARD_CHANGING or y in ('take_while', 'skip_while', 'map_while', 'scan')) and y not in seen_bad:
+                        seen_bad.add(y)
+                        out.inst('C05-FEED/%s/chain-%s' % (key_of(b), y), False, y)
+                        out.fail('C05-FEED/%s/chain-%s' % (key_of(b), y), '%s sends its elements through `%s`, which discards or reorders elements irrespective of the user filter' % (key_of(b), y), b.where(c['line']))
+        for header, blocks in sorted(loops.items()):
+            blocks = set(blocks) | {header}
+            inner = [h for h in loops if h != header and h in blocks]
+            # the driving pull: a switch inside the loop on the discriminant of a call made in the loop, one edge of which leaves the loop
+            drive = None
+            for sbb, (d, tg) in sorted(r.switches.items()):
+                if sbb not in blocks or d[0] != 'discr' or d[1][0] != 'call':
+                    continue
+                if any(sbb in set(loops[h]) | {h} for h in inner):
+                    continue
+                site = [bb for bb, c in r.call_sites() if bb in blocks and c['res'] == d[1]]
+                if not site:
+                    continue
+                try:
+                    some_t, none_t = r.switch_target(sbb, 1), r.switch_target(sbb, 0)
+                except Exception:
+                    continue
+                if header in cfg.reach(none_t, avoid=set()) and none_t in blocks:
+                    continue
+                drive = (sbb, d[1], some_t, none_t)
+                break
+            if drive is None:
+                continue
+            sbb, V, some_t, none_t = drive
+            n += 1
+            key = 'C05-FEED/%s/%s' % (key_of(b), term_method(V) or 'pull')
+            nkey[key] = nkey.get(key, 0) + 1
+            if nkey[key] > 1:
+                key += '#%d' % nkey[key]
+            phis = {L for (h, L) in r.recur if h == header}
+            phi_terms = {('phi', header, L) for L in phis}
+            # the chain the loop iterates keeps every element: no take / skip / *_while / step_by / rev between the pull and the body
+            if is_next_call(V) and V[2]:
+                names, root_ = I.spine(V[2][0])
+                badad = [y for y in names if y not in ITER_ELEMENT_FAITHFUL]
+                if badad:
+                    out.inst(key + '/chain', False, badad[0])
+                    out.fail(key + '/chain', '%s iterates its elements through `%s`, which discards or reorders elements irrespective of the user filter' % (key_of(b), badad[0]), b.where())
+
+            def base_of_recv(a):
+                hops = 0
+                while a is not None and hops < 12:
+                    hops += 1
+                    if a[0] in ('mut', 'ref', 'field'):
+                        a = a[1]
+                    else:
+                        break
+                return a
+
+            def mentions(t, v=V):
+                return t is not None and any(x == v for x in subterms(t))
+
+            feeds = set()
+            for x in blocks:
+                st, ex = r.state.get(x, {}), r.exit_env.get(x, {})
+                for L in phis:
+                    z = ex.get(L)
+                    # a new value that mentions the pulled value, or any update of an accumulator that the body returns (a count)
+                    if z is not None and z != st.get(L) and (mentions(z) or (header, L) in returned_phis):
+                        feeds.add(x)
+            for x, c in r.call_sites():
+                if x not in blocks or not c['args']:
+                    continue
+                dest = (c['t'].get('dest') or {}).get('l')
+                if dest in phis and (any(mentions(a) for a in c['args']) or mentions(c['res'])):
+                    feeds.add(x)
+                    continue
+                mth = method(c['t'])
+                if decl(c['t']) in FN_CALLS and c['args'][0][0] == 'param' and any(mentions(a) for a in c['args'][1:]):
+                    # a sink closure (`push: impl FnMut(Out)`, output `()`): handing it the value is the feed
+                    fnm = c['args'][0][1][4:] if c['args'][0][1].startswith('cap:') else c['args'][0][1]
+                    rootb = F.root_of(b) if b.is_closure() else b
+                    tp_ = None
+                    for l_ in rootb.arg_locals():
+                        if (rootb.local_name(l_) or '') == fnm.lstrip('*&'):
+                            tp_ = local_type_param(rootb, l_)
+                    if rootb.fn_bounds().get(tp_, {}).get('output') in ('()', ''):
+                        feeds.add(x)
+                        continue
+                if decl(c['t']) in FN_CALLS or mth in STAGE_METHODS:
+                    # the binary operator of a reduction fed with the accumulator is a feed; any other closure call is a stage
+                    if decl(c['t']) in FN_CALLS and any(any(y in phi_terms for y in subterms(a)) for a in c['args'][1:]) and any(mentions(a) for a in c['args'][1:]):
+                        pass
+                    continue
+                recv = base_of_recv(c['args'][0])
+                if (recv in phi_terms or recv in ref_params or (recv is not None and recv[0] == 'phi')) and any(mentions(a) for a in c['args'][1:]):
+                    feeds.add(x)
+            pulling_inner = [h for h in inner if any(x in feeds for x in set(loops[h]) | {h})]
+            if inner and pulling_inner:
+                ok = bool(feeds)
+                out.inst(key, ok, 'outer loop: %d feed block(s) in its inner loop(s)' % len(feeds), sample={'body': key_of(b), 'pull': t_str(V)[:120], 'feed_blocks': sorted(feeds)})
+                if not ok:
+                    out.fail(key, '%s: nothing derived from %s reaches an accumulator or the target inside the loop that pulls it: the pulled elements are discarded' % (key_of(b), t_str(V)[:80]), b.where())
+                continue
+            root = F.root_of(b) if b.is_closure() else b
+            # the user tests this loop's own body consults
+            used = set()
+            for (ft, hv) in ((True, True), (False, True), (True, False)):
+                rr = ctx.opa.run(bn, seeds=_feed_seeds(root, bn, ft, hv))
+                for x, (d, tg) in rr.switches.items():
+                    if x in blocks:
+                        if _user_pred_truth(root, d):
+                            used.add('filter')
+                        if _is_value_test(d):
+                            used.add('value')
+            probs = []
+            search_loop = False
+            for (cname, ft, hv) in (('accepted', True, True), ('filter-rejects', False, True), ('no-value', True, False)):
+                if (cname == 'filter-rejects' and 'filter' not in used) or (cname == 'no-value' and 'value' not in used):
+                    continue
+                sd = _feed_seeds(root, bn, ft, hv)
+                rr = ctx.opa.run(bn, seeds=sd)
+                succ = {}
+                for x in cfg.succ:
+                    if x in rr.switches:
+                        succ[x] = list(rr.switches[x][1])
+                    elif x in r.switches:
+                        # not reached from the entry under these answers (e.g. behind an outer test): decide the branch on its own
+                        tv = sd['atoms'](r.switches[x][0])
+                        succ[x] = [r.switch_target(x, int(tv))] if tv is not None else list(r.switches[x][1])
+                    else:
+                        succ[x] = [y for y in cfg.succ[x] if not b.blocks[y].get('cleanup')]
+                if cname == 'accepted':
+                    seen = cfg.reach(some_t, avoid=feeds, succ=succ)
+                    full = cfg.reach(some_t, succ=succ, avoid={header})
+                    if used and header not in cfg.reach(some_t, succ=succ):
+                        # a search loop: an accepted element always ends the loop (`break` / `return`); what happens to it afterwards is
+                        # the business of the accumulator rules - here: a rejected element must never end it
+                        search_loop = True
+                        continue
+                    esc = header in seen or any(x not in blocks for x in seen)
+                    if esc:
+                        probs.append('with the user tests passing, an iteration can end without feeding the result (no accumulator update / append on that path): a surviving element is dropped')
+                elif search_loop:
+                    seen = cfg.reach(some_t, avoid={header}, succ=succ)
+                    if any(x not in blocks for x in seen):
+                        probs.append('in the case `%s` the iteration can leave the search loop as if the element had been accepted' % cname)
+                else:
+                    seen = cfg.reach(some_t, avoid={header}, succ=succ)
+                    hit = sorted(x for x in feeds if x in seen and x in blocks)
+                    if hit:
+                        probs.append('in the case `%s` the iteration still feeds the result (%s): a rejected element is counted / emitted' % (cname, b.where(b.blocks[hit[0]]['term'].get('line'))))
+            if not feeds and not search_loop and not probs:
+                probs.append('nothing derived from the pulled value reaches an accumulator or the target inside the loop: the pulled elements are processed and then discarded')
+            out.inst(key, not probs, '%s%d feed block(s); cases %s' % ('search loop; ' if search_loop else '', len(feeds), sorted(used) or ['none']), sample={'body': key_of(b), 'pull': t_str(V)[:120], 'feed_blocks': sorted(feeds), 'tests': sorted(used)})
+            for p_ in probs[:1]:
+                out.fail(key, '%s, loop over %s: %s' % (key_of(b), t_str(V)[:70], p_), b.where())
+    out.floor('pulling_loops', n, 8 if not ctx.fixture else 0)
+    return out
+
+
+@rule('C05-CONSUME', 'a value that carries the elements - the runner\'s result in a kernel, the iterator handed to a sequential kernel or to seq_extend - is passed on along every path, never just dropped')
+def c05_consume(ctx):
+    """Function-level companion of C05-FEED.  (1) In a kernel that calls a runner entry returning data (the per-thread vectors, the
+    reduced value), every path from that call to a normal return hands the result to another call, or the kernel returns a
+    value built from it.  (2) In a sequential kernel and in every `seq_extend`, the by-value parameter that is the element source
+    (a bare, non-Fn type parameter) is an argument of some call on every path from the entry to a normal return."""
+    out = RuleOut('C05-CONSUME')
+    F = ctx.facts
+    S = ctx.slots
+    n = 0
+
+    def must_pass(b, r, start, carriers, what, key):
+        cfg = ctx.cfg(b)
+        uses = set()
+        for x, c in r.call_sites():
+            if any(any(y in carriers for y in subterms(a)) for a in c['args'] if a is not None):
+                uses.add(x)
+        succ = {x: [y for y in cfg.succ[x] if not b.blocks[y].get('cleanup')] for x in cfg.succ}
+        seen = cfg.reach(start, avoid=uses, succ=succ)
+        esc = [x for x in cfg.returns if x in seen]
+        if esc:
+            # returning a value built from the carrier - or decided by looking at it (`match result { (_, None) => None, .. }`) - passes it on
+            def touches(t):
+                return t is not None and any(y in carriers for y in subterms(t))
+            pr = ctx.path_returns(b.name, inlining=True)
+            if pr:
+                # loop-free body: every path with its own guards (the arms of a match are joined before the return block)
+                edges = [(pth[-1], val, pc) for (val, pc, pth) in pr if not (set(pth) & uses) and start in pth]
+            else:
+                edges = [(pred, val, pc) for (pred, rb), (val, pc) in r.ret_edges.items() if pred in seen or rb in seen] or \
+                        [(bb_, val, pc) for (bb_, val, pc) in r.returns if bb_ in seen]
+            if edges and all(all(touches(alt) or any(touches(pt) for pt, f in pc) for alt in alternatives(val)) for (_, val, pc) in edges):
+                esc = []
+        out.inst(key, not esc, '%d call(s) receive %s' % (len(uses), what), sample={'fn': key_of(b), 'value': what, 'using_call_blocks': sorted(uses)})
+        if esc:
+            out.fail(key, '%s can return without passing %s on to anything: the elements it carries are dropped' % (key_of(b), what), b.where())
+
+    for (bn, bb, entry) in sorted(S.runner_call_sites):
+        b = F.bodies[bn]
+        eb = F.bodies[entry]
+        rty = eb.d.get('ret_ty') or ''
+        if rty in ('usize', '()', ''):
+            continue
+        r = ctx.run(bn)
+        c = r.calls.get(bb)
+        if c is None or c['res'] is None:
+            continue
+        n += 1
+        R = c['res']
+        tgt = c['t'].get('target')
+        if tgt is None:
+            continue
+        must_pass(b, r, tgt, {R}, 'the result of %s' % strip_generics(entry).split('::')[-1], 'C05-CONSUME/%s/%s' % (key_of(b), strip_generics(entry).split('::')[-1]))
+    hosts = list(S.seq_kernels)
+    for b in F.bodies.values():
+        if b.d.get('impl_trait') == COLLECT_INTO_CORE and b.d.get('method') == 'seq_extend':
+            hosts.append(b.name)
+    for hn in sorted(set(hosts)):
+        b = F.bodies[hn]
+        fbs = b.fn_bounds()
+        tps = set(b.d.get('type_params') or [])
+        for l in b.arg_locals():
+            ty = b.locals[l]['ty']
+            if ty in tps and ty not in fbs:
+                nm = b.local_name(l) or '_%d' % l
+                r = ctx.run(hn)
+                n += 1
+                must_pass(b, r, 0, {('param', nm)}, 'its parameter `%s`' % nm, 'C05-CONSUME/%s/%s' % (key_of(b), nm))
+    out.floor('carriers', n, 8 if not ctx.fixture else 0)
+    return out
+
+
+@rule('C05-FALLIBLE', 'every impl of Fallible reports a value exactly when it has one: has_value is is_some / is_ok of self, value is its unwrap')
+def c05_fallible(ctx):
+    """The rules treat `has_value()` as the test that decides whether a filter_map stage produced an element (C05-ACCEPT, C05-FEED,
+    C01-COMPOSE).  That is the meaning of the trait only if its impls say so: for each impl, `has_value(&self)` must be exactly the
+    discriminant test of `self` for the payload-carrying variant (Option::is_some / Result::is_ok) and `value(self)` the
+    unwrap / expect of the same `self`."""
+    out = RuleOut('C05-FALLIBLE')
+    F = ctx.facts
+    n = 0
+    OKTEST = {'std::option::Option::is_some', 'std::result::Result::is_ok'}
+    OKVAL = {'std::option::Option::unwrap', 'std::option::Option::expect', 'std::result::Result::unwrap', 'std::result::Result::expect',
+             'std::option::Option::unwrap_unchecked', 'std::result::Result::unwrap_unchecked'}
+    for b in F.fn_bodies():
+        if not (b.d.get('impl_trait') or '').endswith('fallible::Fallible'):
+            continue
+        m = b.d.get('method')
+        if m not in ('has_value', 'value'):
+            continue
+        n += 1
+        r = ctx.run(b.name)
+        key = 'C05-FALLIBLE/%s' % key_of(b)
+        ret = r.ret
+        base = ret[2][0] if ret is not None and ret[0] == 'call' and ret[2] else None
+        while base is not None and base[0] in ('ref', 'mut'):
+            base = base[1]
+        ok = ret is not None and ret[0] == 'call' and tcallee(ret) in (OKTEST if m == 'has_value' else OKVAL) and base == P('self')
+        out.inst(key, ok, t_str(ret)[:100], sample={'impl': key_of(b), 'returns': t_str(ret)[:120]})
+        if not ok:
+            out.fail(key, '%s returns %s: %s' % (key_of(b), t_str(ret)[:100], 'has_value must be is_some / is_ok of self' if m == 'has_value' else 'value must be the unwrap of self'), b.where())
+    out.floor('fallible_methods', n, 2 if not ctx.fixture else 0)
+    return out
+
+
 # ======================================================================================= C03-THREAD / C04-THREAD / C04-CHAIN
 def from_current_pull(ctx, t):
     """does the term derive from an element / chunk delivered by a pull (or from the whole-source stream)"""
@@ -2871,6 +3212,20 @@ def check_count_body(ctx, out, tb, depth=0):
                 out.inst('C04-THREAD/%s/survivor-%s' % (key_of(tb), 'inc' if one_inc else 'init'), ok, 'counting 1 on the survivor edge')
                 if not ok:
                     out.fail('C04-THREAD/%s/survivor' % key_of(tb), '%s counts 1 on a path that is not guarded by the user filter accepting the element' % key_of(tb), tb.where(st.get('line')))
+            # a counter that starts at 0 right after an element has been accepted (`Some(_first) => { let mut acc = 0; ..rest.. }`) forgets it
+            zero_init = rv['r'] == 'use' and rv['o'].get('k') == 'int' and rv['o'].get('v') == '0' and tb.locals[st['lhs']['l']]['ty'] == 'usize' and tb.locals[st['lhs']['l']].get('name')
+            if zero_init and bb in r.visited and any(cfg.edge_dominates(a, t_, bb) for (a, t_) in accept_edges):
+                out.inst('C04-THREAD/%s/survivor-init0' % key_of(tb), False, 'counter starts at 0 on a survivor edge')
+                out.fail('C04-THREAD/%s/survivor-init0' % key_of(tb), '%s starts a counter at 0 on a path on which the user filter has just accepted an element: that element is never counted' % key_of(tb), tb.where(st.get('line')))
+    # a constant count is returned only for "nothing accepted" (0) - or for exactly the one accepted element (1, on a survivor edge)
+    for (pred, rb), (val, pc) in r.ret_edges.items():
+        for alt in alternatives(val):
+            if const_int(alt):
+                dominated = any(cfg.edge_dominates(a, t_, pred) for (a, t_) in accept_edges)
+                okc = (alt[1] == 0 and not dominated) or (alt[1] == 1 and dominated)
+                out.inst('C04-THREAD/%s/const-%d' % (key_of(tb), alt[1]), okc, 'constant count %d %s a survivor edge' % (alt[1], 'on' if dominated else 'off'))
+                if not okc:
+                    out.fail('C04-THREAD/%s/const' % key_of(tb), '%s returns the constant count %d on a path on which %s' % (key_of(tb), alt[1], 'an element has been accepted' if dominated else 'no element has been accepted'), tb.where())
     return total
 
 
